@@ -79,7 +79,7 @@ func budget(tier string) time.Duration {
 		}
 	}
 	if tier == "thorough" {
-		return 15 * time.Minute
+		return 30 * time.Minute
 	}
 	return 100 * time.Second
 }
